@@ -1512,6 +1512,8 @@ class Interp:
         if isinstance(base, ExtRef):
             return self.np.ext_attr(base, attr, n)
         if isinstance(base, Record):
+            if attr == "files" and base.attrs_files is not None:
+                return list(base.attrs_files)
             if attr in base.attrs:
                 return base.attrs[attr]
             if attr in base.native_methods:
